@@ -320,6 +320,66 @@ def r11i(ctx, rep, rule="R11i"):
     rep.floor(rule, "number-to-symbol downgrades on identifier characters", n, 1)
 
 
+def r11k(ctx, rep, rule="R11k"):
+    """a number prefix applies to an atom"""
+    facts = ctx["facts"]
+    rep.rule(rule, "a datum consumes exactly its own tokens: after the #e #i #b #o #d #x prefixes, parse_number hands the next "
+             "token to Number's parser only if a test of its token type (a match on TokenType whose other edge leads to an "
+             "error) admitted it as an atom. Without the test a bracket, quote or string after a prefix is swallowed into "
+             "the number's datum (`#x(1 2)` read as the symbol `(`), and the tokens consumed are not those of one datum.")
+    f = need(rep, rule, facts, "marwood::parse::parse_number")
+    if f is None:
+        return
+    parses = [bb for bb, t in f.calls() if (callee(t) or "").startswith("marwood::number::Number::parse")]
+    if not parses:
+        rep.anchor_lost(rule, "parse_number no longer calls Number::parse*")
+        return
+    from ..shapes import reach_with_bools
+    tests = []
+    for sw in disc_switches(facts, f, "marwood::lex::TokenType"):
+        admitted = {v for v, tg in sw["arms"].items() if tg != sw["otherwise"]}
+        if not admitted or not all(f.dominates(sw["bb"], pb) for pb in parses):
+            continue
+        # from the non-admitting edge (flag temporaries respected) the parser call is out of reach and an error is built
+        r = reach_with_bools(f, sw["otherwise"])
+        errs = any(st["rv"]["k"] == "agg" and st["lhs"]["l"] == 0 and st["rv"].get("variant") == "Err"
+                   for b in r for st in f.blocks[b]["stmts"])
+        if errs and not any(pb in r for pb in parses):
+            tests.append((sw, admitted))
+    key = rule + "|parse_number|prefix-applies-to-an-atom"
+    if tests:
+        adm = sorted(tests[0][1])
+        bad = [v for v in adm if v in ("LeftParen", "RightParen", "HashParen", "SingleQuote", "Quasiquote", "Unquote", "String", "Char", "Dot")]
+        if bad:
+            rep.fail(rule, key, "parse_number admits token type(s) %s after a number prefix: such a token is not an atom a prefix can "
+                     "apply to" % ", ".join(bad), [tests[0][0]["term"].get("loc") or f.span])
+        else:
+            rep.ok(rule, key, "the token after the prefixes reaches Number's parser only as %s" % " / ".join(adm), [f.span])
+    # the symbol fallback is for unprefixed tokens only
+    from ..shapes import dominating_guards
+    body = set()
+    for src, h in f.back_edges():
+        body |= (f.reach_from(h) & f.reach_back(src)) | {h, src}
+    flags = [t for bb, t in f.calls() if bb not in body and "lex::TokenType as std::cmp::PartialEq>::eq" in (t.get("fnargs") or "")]
+    syms = [(bb, st) for bb, j, st in f.stmts() if st["rv"]["k"] == "agg" and (st["rv"].get("adt") or "").endswith("cell::Cell")
+            and st["rv"].get("variant") == "Symbol"]
+    for i, (bb, st) in enumerate(syms):
+        k2 = "%s|parse_number|symbol-fallback#%d" % (rule, i + 1)
+        ok = False
+        for sbb, cond, taken, t in dominating_guards(f, bb):
+            o = f.origin(cond)
+            if o[0] == "call" and any(o[1] is fl for fl in flags) and taken == 0:
+                ok = True
+        (rep.ok if ok else rep.fail)(
+            rule, k2, "a token that is no numeral becomes a symbol only when no prefix preceded it" if ok else
+            "parse_number turns a token that failed to parse as a number into a symbol even after a number prefix: `#b102` reads as "
+            "the symbol `102`, whose written form reads back as a number", [st["loc"]])
+    if not tests:
+        rep.fail(rule, key, "parse_number hands whatever token follows a number prefix to Number's parser (and turns it into a symbol "
+                 "when it is no number): `#x(1 2)` reads as the symbol `(` with `1 2)` left over, `(list #x)` swallows the closing "
+                 "bracket", [f.span])
+
+
 def run(ctx, rep):
     r11a(ctx, rep)
     r11b(ctx, rep)
@@ -333,6 +393,7 @@ def run(ctx, rep):
     r11g(ctx, rep)
     r11h(ctx, rep)
     r11i(ctx, rep)
+    r11k(ctx, rep)
     from . import units
     units.r15a(ctx, rep, rule="R11d", scope=("marwood::lex::", "marwood::parse::", "marwood::syntax::"))
     rep.rules["R11d"] = "span units: " + rep.rules["R11d"]
